@@ -73,5 +73,5 @@ def gate_unit(kf):
 UNITS = {'c19_query_root_gating': (['C19'], gate_unit)}
 SEARCH = {'c19_query_root_gating': ['c19_modes']}
 BOUNDED = {'C19': [dict(case='c19_modes', function='QueryRoot::resolve_field, Schema::execute_once (introspection-only mutation root), Fields::add_set (__typename) through Schema::execute',
-                        bound='the full 3x3 matrix of schema-level x request-level modes x 10 operations (introspection, __typename, ordinary query and mutation fields, federation _service) on a static schema',
-                        why='the kernel abstracts every payload to a trace event; the bounded matrix ties the gating to the real payloads. Dynamic schemas and subscriptions are not exercised')]}
+                        bound='the full 3x3 matrix of schema-level x request-level modes x 10 operations (introspection, __typename, ordinary query and mutation fields, federation _service) on a static schema, and x 6 operations (incl. _service, _entities) on a dynamic federation schema',
+                        why='the kernel abstracts every payload to a trace event; the bounded matrix ties the gating to the real payloads. Subscriptions are not exercised')]}
